@@ -55,6 +55,21 @@ func (x *Exec) intrinsic(st *State, name string, args []Val, cc *ssa.CallCommon,
 		body := eq(sel(sel(m, app("sarr", a.T)), app("+", app("soff", a.T), k)), sel(sel(m, app("sarr", b.T)), app("+", app("soff", b.T), k)))
 		st.assume(eq(r, and(eq(app("slen", a.T), app("slen", b.T)),
 			"(forall (("+k+" Int)) (=> (and (<= 0 "+k+") (< "+k+" (slen "+a.T+"))) "+body+"))")))
+		// comparison against a package constant of known length: also state the explicit
+		// byte-by-byte meaning (an instance of the quantified definition, so no extra assumption)
+		for side := 0; side < 2; side++ {
+			n := x.constLenOfGlobal(cc.Args[side])
+			if n <= 0 || n > 32 {
+				continue
+			}
+			g, o := args[side], args[1-side]
+			var cs []string
+			cs = append(cs, eq(app("slen", o.T), num(int64(n))))
+			for j := 0; j < n; j++ {
+				cs = append(cs, eq(sel(sel(m, app("sarr", g.T)), app("+", app("soff", g.T), num(int64(j)))), sel(sel(m, app("sarr", o.T)), app("+", app("soff", o.T), num(int64(j))))))
+			}
+			st.assume(implies(eq(app("slen", g.T), num(int64(n))), eq(r, and(cs...))))
+		}
 		return term(r, SBool, types.Typ[types.Bool]), true
 	case "errors.New", "fmt.Errorf":
 		x.useIntrinsic(name)
@@ -165,17 +180,35 @@ func (x *Exec) putBE(st *State, b, v Val, n int, cc *ssa.CallCommon, pos token.P
 	x.safe(st, "idx", x.operandText(cc.Args[1])+" (PutUint needs "+num(int64(n))+" bytes)", app(">=", app("slen", b.T), num(int64(n))), pos)
 	m := st.H("mem.byte", "(Array Int Int)")
 	content := sel(m, app("sarr", b.T))
+	ds := x.digits(st, v.T, n)
 	for k := 0; k < n; k++ {
-		var byteK string
-		if n-1-k == 0 {
-			byteK = app("mod", v.T, "256")
-		} else {
-			byteK = app("mod", app("div", v.T, pow256(n-1-k)), "256")
-		}
-		content = store(content, app("+", app("soff", b.T), num(int64(k))), byteK)
+		content = store(content, app("+", app("soff", b.T), num(int64(k))), ds[k])
 	}
 	st.setH("mem.byte", "(Array Int Int)", store(m, app("sarr", b.T), content))
 	return Val{K: VNone}
+}
+
+// digits returns the n base-256 digits (most significant first) of v, which must lie in
+// [0, 256^n): fresh byte constants with v = sum d_k * 256^(n-1-k). No div/mod is needed and
+// the digits are uniquely determined, so this is a definition, not an assumption.
+func (x *Exec) digits(st *State, v string, n int) []string {
+	var ds, parts []string
+	for k := 0; k < n; k++ {
+		d := x.fresh("digit", SInt)
+		st.assume(and(app("<=", "0", d), app("<", d, "256")))
+		ds = append(ds, d)
+		if n-1-k == 0 {
+			parts = append(parts, d)
+		} else {
+			parts = append(parts, app("*", pow256(n-1-k), d))
+		}
+	}
+	if n == 1 {
+		st.assume(eq(v, parts[0]))
+	} else {
+		st.assume(eq(v, app("+", parts...)))
+	}
+	return ds
 }
 
 func (x *Exec) getBE(st *State, b Val, n int, t types.Type, cc *ssa.CallCommon, pos token.Pos) Val {
@@ -262,19 +295,16 @@ func (x *Exec) binaryWrite(st *State, args []Val, cc *ssa.CallCommon, pos token.
 	// unsigned image of the value
 	u := v.T
 	if lo, _, _ := intRange(d.X.Type()); lo != nil && lo.Sign() < 0 {
-		u = app("mod", v.T, pow256(n))
+		u = ite(app(">=", v.T, "0"), v.T, app("+", v.T, pow256(n)))
 	}
 	// build n bytes in a fresh array and append
 	arr := x.allocRef(st, "tmpbytes")
 	content := "((as const (Array Int Int)) 0)"
+	un := x.fresh("uimg", SInt)
+	st.assume(eq(un, u))
+	ds := x.digits(st, un, n)
 	for k := 0; k < n; k++ {
-		var byteK string
-		if n-1-k == 0 {
-			byteK = app("mod", u, "256")
-		} else {
-			byteK = app("mod", app("div", u, pow256(n-1-k)), "256")
-		}
-		content = store(content, num(int64(k)), byteK)
+		content = store(content, num(int64(k)), ds[k])
 	}
 	st.setH("mem.byte", "(Array Int Int)", store(st.H("mem.byte", "(Array Int Int)"), arr, content))
 	tmp := x.fresh("tmp", SSlice)
@@ -342,4 +372,46 @@ func (x *Exec) binaryRead(st *State, args []Val, cc *ssa.CallCommon, pos token.P
 	x.storeTo(st, dst, nv, pt.Elem())
 	st.setH("bytes.Buffer.off", SInt, store(st.H("bytes.Buffer.off", SInt), ref, ite(enough, app("+", off, num(int64(n))), app("slen", buf))))
 	return term(errv, SInt, cc.Signature().Results().At(0).Type()), true
+}
+
+// constLenOfGlobal: if v is a load of package variable G and the contract file has a
+// global invariant with the conjunct `len(G) == N`, return N.
+func (x *Exec) constLenOfGlobal(v ssa.Value) int {
+	u, ok := v.(*ssa.UnOp)
+	if !ok || u.Op != token.MUL {
+		return 0
+	}
+	g, ok := u.X.(*ssa.Global)
+	if !ok {
+		return 0
+	}
+	var find func(e Expr) int
+	find = func(e Expr) int {
+		b, ok := e.(*EBinary)
+		if !ok {
+			return 0
+		}
+		if b.Op == "&&" {
+			if n := find(b.X); n > 0 {
+				return n
+			}
+			return find(b.Y)
+		}
+		if b.Op == "==" {
+			if c, ok := b.X.(*ECall); ok && c.Fun == "len" && len(c.Args) == 1 {
+				if id, ok := c.Args[0].(*EIdent); ok && id.Name == g.Name() {
+					if nn, ok := b.Y.(*ENum); ok {
+						return int(nn.V.Int64())
+					}
+				}
+			}
+		}
+		return 0
+	}
+	for _, gi := range x.v.cf.Globals {
+		if n := find(gi.E); n > 0 {
+			return n
+		}
+	}
+	return 0
 }
